@@ -23,7 +23,11 @@ impl InfixFilter {
     pub(crate) fn filter_infix(&self, infix: &str) -> bool {
         match self {
             InfixFilter::Timstmps(infix_format) => {
-                timestamp_from_ts_infix(infix, infix_format).is_ok()
+                // the parser is lenient (missing zero padding, signs, blanks); only what has
+                // the shape of a name that the logger writes itself belongs to its files
+                timestamp_from_ts_infix(infix, infix_format).is_ok_and(|ts| {
+                    has_same_shape(infix, &ts.format(infix_format.format()).to_string())
+                })
             }
             // r, followed by at least five digits
             InfixFilter::Numbrs => infix.strip_prefix('r').is_some_and(|number| {
@@ -35,4 +39,14 @@ impl InfixFilter {
             InfixFilter::None => false,
         }
     }
+}
+
+// equal up to the values of the digits
+// (with a format that has no complete time, the rendered time can differ from the given one)
+fn has_same_shape(infix: &str, rendered: &str) -> bool {
+    infix.chars().count() == rendered.chars().count()
+        && infix
+            .chars()
+            .zip(rendered.chars())
+            .all(|(a, b)| a == b || (a.is_ascii_digit() && b.is_ascii_digit()))
 }
